@@ -196,6 +196,13 @@ class SModel(Core.Model):
             gift._add(a)
 
 
+class OptModel(SModel):
+    """A model whose constructor takes its settings as free keyword options (and hands the seed on from there)."""
+
+    def __init__(self, **options):
+        super().__init__(options.get('kind', 'plain'), options.get('seed'), options.get('n', 5))
+
+
 def finish(model):
     """Post-run step: the model is marked complete, then a closing lottery and ranking are drawn through the framework."""
     model.complete()
@@ -313,14 +320,14 @@ def chunk_fn(ctx, chunk):
         ctx.transitions += len(case['order'])
         try:
             for kind, seed in case['models']:
-                if (kind, seed) not in solos:
-                    solos[(kind, seed)] = solo(kind, seed, case['steps'])
+                if (kind, repr(seed)) not in solos:
+                    solos[(kind, repr(seed))] = solo(kind, seed, case['steps'])
             got = hbfs._guard(run_interleaving, case)
             for i, (kind, seed) in enumerate(case['models']):
-                if got[i] != solos[(kind, seed)]:
+                if got[i] != solos[(kind, repr(seed))]:
                     raise Violation(f'model {i} ({kind}, seed {seed}) took a different trajectory when its steps were '
                                     f'interleaved as {case["order"]} (A,B,C = models; P,Q = perturbations of '
-                                    f'random / numpy.random / an unrelated model)', expected=solos[(kind, seed)],
+                                    f'random / numpy.random / an unrelated model)', expected=solos[(kind, repr(seed))],
                                     observed=got[i])
             ctx.outcome((tuple(map(tuple, case['models'])), case['order']))
         except Violation as v:
@@ -333,7 +340,9 @@ def interleaving_cases(tier, seed):
     s1, s2, s3 = seed * 1000 + 1, seed * 1000 + 2, seed * 1000 + 3
     steps = 2 if tier == 'quick' else 3
     combos = [[['plain', s1], ['grid', s2]], [['grid', s1], ['space', s2]], [['plain', s1], ['plain', s1]],
-              [['space', s2], ['plain', s2]], [['swap', s1], ['grid', f'run-{seed}']]]
+              [['space', s2], ['plain', s2]], [['swap', s1], ['grid', f'run-{seed}']],
+              # seeds that compare equal but are different seeds for random.Random (int / float)
+              [['plain', -3 - seed], ['plain', -3.0 - seed]], [['grid', 10 ** 20], ['grid', 1e20]]]
     if tier == 'thorough':
         combos += [[['grid', s3], ['grid', s3]], [['space', s1], ['space', s1]]]
     for models in combos:
@@ -384,7 +393,9 @@ def matrix_cell(how, seeds, steps):
     elif how in ('batch1', 'batch2'):
         vals = []
         for k in KINDS:
-            res = Batching.batch_run(SModel, {'kind': k, 'seed': list(seeds)}, collectors=['trace', 'AgentCollector'],
+            # every other kind is run through the model class that takes free keyword options
+            cls = OptModel if KINDS.index(k) % 2 else SModel
+            res = Batching.batch_run(cls, {'kind': k, 'seed': list(seeds)}, collectors=['trace', 'AgentCollector'],
                                      processes=1 if how == 'batch1' else 2, max_timesteps=steps)
             by_seed = {}
             for r in res:
@@ -473,6 +484,13 @@ def run(ctx):
             hbfs._guard(repeat_case, case)
         except Violation as v:
             ctx.report(case, v)
+    for kind in ('plain', 'grid'):
+        case = {'leg': 'mutable_seed', 'kind': kind, 'seed': f'buffer-{ctx.seed}', 'steps': 3}
+        ctx.traces += 2
+        try:
+            hbfs._guard(mutable_seed_case, case)
+        except Violation as v:
+            ctx.report(case, v)
     if ctx.violations:
         return
     cases = list(interleaving_cases(ctx.tier, ctx.seed))
@@ -515,6 +533,31 @@ def repeat_in_process(kind, seed, steps):
     return [first, second]
 
 
+def mutable_seed_case(case):
+    """A bytes-like seed held in a buffer the caller reuses: the model is seeded with the buffer's contents at
+    construction, whatever the caller writes into the buffer afterwards."""
+    reset_library()
+    kind, steps = case['kind'], case['steps']
+    pristine = SModel(kind, bytearray(case['seed'].encode()))
+    for _ in range(steps):
+        pristine.execute()
+    finish(pristine)
+    want = digest_of(pristine)
+    reset_library()
+    buf = bytearray(case['seed'].encode())
+    m = SModel(kind, buf)
+    buf[:] = b'x' * len(buf)            # the caller prepares the next run's seed in the same buffer
+    other = SModel(kind, buf)           # ... and builds that run's model before stepping the first
+    for _ in range(steps):
+        m.execute()
+    finish(m)
+    if digest_of(m) != want:
+        raise Violation(f'the {kind} model seeded from a bytearray took another trajectory because the caller reused the '
+                        f'buffer after constructing the model', expected=want, observed=digest_of(m))
+    del other
+    return want
+
+
 def repeat_case(case):
     # run in fresh interpreters: what the second run sees (heap layout, global generator state) is then the same
     # every time this case is executed, so a violation replays identically.  Two interpreters with different
@@ -539,6 +582,9 @@ def repeat_case(case):
 
 
 def replay(case):
+    if case['leg'] == 'mutable_seed':
+        hbfs._guard(mutable_seed_case, case)
+        return
     if case['leg'] == 'repeat':
         hbfs._guard(repeat_case, case)
         return
